@@ -17,6 +17,12 @@ vocabulary is exactly what the library uses:
     t = <arithmetic expression>                            temporaries (inlined)
     nu_func = lambda t: <expr> | def nu_func(t): return <expr>     time functions (inlined, time variable = TVar)
     x = nu_func(<expr>)                                    evaluation of a time function at a point
+    f, g = _helper(e1, .., k=e)  |  f = _helper(..)        call of a module-level HELPER function (a function of the model file - or of
+    Integration.two_pops(.., nu1=_helper(..))              the file it star-imports - without __param_names__), INLINED: the arguments are
+                                                           bound with the helper's CURRENT signature (defaults must be constant arithmetic),
+                                                           its body may only consist of single-assignment temporaries, lambdas / nested
+                                                           `def f(t): return <expr>`, calls of further helpers, and one final
+                                                           `return v` | `return v1, .., vn` (scalars or time functions)
     if a >= b: ... else: ...                               IfGe (the continuation is copied into both branches)
     return sibling((e1, ..., en), ns, pts)                 sibling model, inlined
     *_mscore(params): command = '...'; sub_dict = {...}; return command % sub_dict      MsCmd
@@ -156,11 +162,32 @@ class Env:
         self.phi = None     # name of the density variable
         self.d = 0          # current number of populations
         self.fs = {}        # name -> True (spectrum variables, produced by from_phi)
+        self.fdeps = {}     # time function name -> names of THIS frame its body reads (Python closures bind late: the
+                            # translation inlines the values at the definition, so none of them may be re-bound later)
+        self.stale = {}     # time function name -> name it reads that was re-bound after its definition
     def copy(self):
         e = Env()
         e.scal = dict(self.scal); e.funcs = dict(self.funcs); e.strs = dict(self.strs); e.dicts = dict(self.dicts)
         e.grids = set(self.grids); e.phi = self.phi; e.d = self.d; e.fs = dict(self.fs)
+        e.fdeps = {k: set(v) for k, v in self.fdeps.items()}; e.stale = dict(self.stale)
         return e
+    def rebinding(self, name):
+        """a name is (re)bound in this frame: a time function defined earlier that reads it would see the NEW value when it is
+        finally called (late binding), the translation has inlined the old one: such a function may not be used any more"""
+        for f, deps in self.fdeps.items():
+            if name in deps and f in self.funcs and f != name:
+                self.stale[f] = name
+        self.stale.pop(name, None)
+    def use_func(self, name):
+        if name in self.stale:
+            raise Refuse('the time function %s is used after %s, which it reads, was re-bound (closures bind late)' % (name, self.stale[name]))
+        return self.funcs[name]
+    def def_func(self, name, e, deps):
+        self.rebinding(name)
+        self.funcs[name] = e; self.fdeps[name] = set(deps); self.scal.pop(name, None)
+
+def free_names(body, bound):
+    return {x.id for x in ast.walk(body) if isinstance(x, ast.Name)} - set(bound)
 
 class ModuleInfo:
     def __init__(self, repo, rel):
@@ -276,16 +303,26 @@ class Translator:
                     and f.attr in ('exp', 'log') and len(n.args) == 1 and not n.keywords:
                 return [f.attr, self.expr(n.args[0], env, mod, tname)]
             if isinstance(f, ast.Name) and f.id in env.funcs and len(n.args) == 1 and not n.keywords:
-                return subst_t(env.funcs[f.id], self.expr(n.args[0], env, mod, tname))
+                return subst_t(env.use_func(f.id), self.expr(n.args[0], env, mod, tname))
+            if isinstance(f, ast.Name) and self.is_helper(mod, f.id, env):
+                vals = self.helper_call(n, env, mod)
+                if len(vals) != 1 or vals[0][0] != 'scal':
+                    raise Refuse('helper %s does not return one scalar where one is needed' % f.id)
+                return vals[0][1]
             raise Refuse('call %s in arithmetic' % ast.unparse(f))
         raise Refuse('expression %s' % type(n).__name__)
 
     def timefunc(self, n, env, mod):
         """argument of an integration: scalar expression, name of a local time function, or a lambda"""
         if isinstance(n, ast.Name) and n.id in env.funcs:
-            return env.funcs[n.id]
+            return env.use_func(n.id)
         if isinstance(n, ast.Lambda):
             return self.lam(n, env, mod)
+        if isinstance(n, ast.Call) and isinstance(n.func, ast.Name) and self.is_helper(mod, n.func.id, env):
+            vals = self.helper_call(n, env, mod)
+            if len(vals) != 1:
+                raise Refuse('helper %s returns %d values where one is needed' % (n.func.id, len(vals)))
+            return vals[0][1]
         return self.expr(n, env, mod)
 
     def lam(self, n, env, mod):
@@ -293,6 +330,119 @@ class Translator:
         if len(a.args) != 1 or a.defaults or a.vararg or a.kwarg or a.kwonlyargs:
             raise Refuse('lambda with other than one plain argument')
         return self.expr(n.body, env, mod, tname=a.args[0].arg)
+
+    # -- module-level helper functions (inlined) -------------------------------------------------------
+    def is_helper(self, mod, name, env):
+        """a call `name(...)`: name is not a local of the frame and resolves to a module-level function of the model file (or
+        of the file it star-imports) that is NOT a model (no __param_names__)"""
+        if name in env.scal or name in env.funcs or name in env.grids or name == env.phi or name in env.fs:
+            return False
+        m2, fn = self.resolve(mod, name)
+        return fn is not None and fn.name not in m2.param_names
+
+    def value(self, n, env, mod):
+        """('func', expr with TVar) | ('scal', t-free expr) of an argument / returned value"""
+        if isinstance(n, ast.Name) and n.id in env.funcs:
+            return ('func', env.use_func(n.id))
+        if isinstance(n, ast.Lambda):
+            return ('func', self.lam(n, env, mod))
+        if isinstance(n, ast.Call) and isinstance(n.func, ast.Name) and self.is_helper(mod, n.func.id, env):
+            vals = self.helper_call(n, env, mod)
+            if len(vals) != 1:
+                raise Refuse('helper %s returns %d values where one is needed' % (n.func.id, len(vals)))
+            return vals[0]
+        return ('scal', self.expr(n, env, mod))
+
+    def helper_call(self, call, env, mod):
+        """inlines `helper(args)`: -> [('func' | 'scal', expr)] of the returned value(s).  Fail-closed: the helper's frame is
+        single-assignment (so that the late binding of its closures cannot matter), its body is temporaries, time functions,
+        calls of further helpers and ONE final return; it reads no module-level name but numpy and other helpers."""
+        name = call.func.id
+        m2, fn = self.resolve(mod, name)
+        if fn is None or fn.name in m2.param_names:
+            raise Refuse('call of %s is not a call of a module-level helper function' % name)
+        self._hdepth = getattr(self, '_hdepth', 0) + 1
+        self._helpers_used = getattr(self, '_helpers_used', set()) | {'%s:%s' % (m2.rel, fn.name)}
+        try:
+            if self._hdepth > 6:
+                raise Refuse('helper calls nested too deeply (%s)' % name)
+            what = 'helper %s' % fn.name
+            sig = _sig_of(fn)
+            given, dflt = bind(sig, call, what)
+            henv = Env()
+            bound = set()
+            for pn, _ in sig:
+                if pn in bound:
+                    raise Refuse('%s: parameter %s named twice' % (what, pn))
+                bound.add(pn)
+                if pn in given:
+                    kind, e = self.value(given[pn], env, mod)
+                else:
+                    # defaults are evaluated once, at definition time, in the module scope: constant arithmetic only
+                    kind, e = 'scal', self.expr(dflt[pn], Env(), m2)
+                    if expr_vars(e) or has_t(e):
+                        raise Refuse('%s: default of %s is not a constant' % (what, pn))
+                if kind == 'func':
+                    henv.funcs[pn] = e; henv.fdeps[pn] = set()
+                else:
+                    henv.scal[pn] = e
+            body = [s for s in fn.body if not (isinstance(s, ast.Expr) and isinstance(s.value, ast.Constant) and isinstance(s.value.value, str))]
+            if not body or not isinstance(body[-1], ast.Return) or body[-1].value is None:
+                raise Refuse('%s does not end in `return <value(s)>`' % what)
+            def bind_name(nm, kind, e, deps=()):
+                if nm in bound:
+                    raise Refuse('%s: the name %s is bound twice (the frame of a helper must be single-assignment)' % (what, nm))
+                bound.add(nm)
+                if kind == 'func':
+                    henv.def_func(nm, e, deps)
+                else:
+                    henv.rebinding(nm); henv.scal[nm] = e
+            for s in body[:-1]:
+                if isinstance(s, ast.FunctionDef):
+                    a = s.args
+                    b2 = [x for x in s.body if not (isinstance(x, ast.Expr) and isinstance(x.value, ast.Constant))]
+                    if len(a.args) != 1 or a.defaults or a.vararg or a.kwarg or a.kwonlyargs or a.posonlyargs or s.decorator_list \
+                            or len(b2) != 1 or not isinstance(b2[0], ast.Return) or b2[0].value is None:
+                        raise Refuse('%s: nested def %s is not `def f(t): return <expr>`' % (what, s.name))
+                    bind_name(s.name, 'func', self.expr(b2[0].value, henv, m2, tname=a.args[0].arg), free_names(b2[0].value, [a.args[0].arg]))
+                    continue
+                if isinstance(s, ast.Assign) and len(s.targets) == 1:
+                    tg, v = s.targets[0], s.value
+                    if isinstance(tg, ast.Name):
+                        if isinstance(v, ast.Lambda):
+                            bind_name(tg.id, 'func', self.lam(v, henv, m2), free_names(v.body, [x.arg for x in v.args.args]))
+                        else:
+                            kind, e = self.value(v, henv, m2)
+                            bind_name(tg.id, kind, e)
+                        continue
+                    if isinstance(tg, ast.Tuple) and all(isinstance(e, ast.Name) for e in tg.elts) and isinstance(v, ast.Call) \
+                            and isinstance(v.func, ast.Name) and self.is_helper(m2, v.func.id, henv):
+                        vals = self.helper_call(v, henv, m2)
+                        if len(vals) != len(tg.elts):
+                            raise Refuse('%s: %d names unpack the %d values of %s' % (what, len(tg.elts), len(vals), v.func.id))
+                        for e_, (kind, e) in zip(tg.elts, vals):
+                            bind_name(e_.id, kind, e)
+                        continue
+                raise Refuse('%s: statement %s at line %d is outside the vocabulary of helper functions' % (what, type(s).__name__, getattr(s, 'lineno', 0)))
+            rv = body[-1].value
+            elts = list(rv.elts) if isinstance(rv, ast.Tuple) else [rv]
+            if not elts or any(isinstance(e, ast.Starred) for e in elts):
+                raise Refuse('%s: unsupported return value' % what)
+            return [self.value(e, henv, m2) for e in elts]
+        finally:
+            self._hdepth -= 1
+
+    def bind_values(self, names, vals, env, args3):
+        """binds the value(s) returned by a helper to local names of the model's frame"""
+        for nm, (kind, e) in zip(names, vals):
+            if nm in (args3[0], args3[1], args3[2]):
+                raise Refuse('assignment to the argument %s' % nm)
+            if nm in env.grids or nm == env.phi or nm in env.fs:
+                raise Refuse('value assigned to the name %s already in use' % nm)
+            if kind == 'func':
+                env.def_func(nm, e, ())          # closes over the helper's frame, not over this one
+            else:
+                env.rebinding(nm); env.scal[nm] = e; env.funcs.pop(nm, None)
 
     # -- calls of the numerical layer ---------------------------------------------------------------
     def modcall(self, n, mod):
@@ -555,8 +705,9 @@ class Translator:
                 if len(a.args) != 1 or a.defaults or a.vararg or a.kwarg or a.kwonlyargs or s.decorator_list \
                         or len(body) != 1 or not isinstance(body[0], ast.Return) or body[0].value is None:
                     raise Refuse('nested def %s is not `def f(t): return <expr>`' % s.name)
-                env.funcs[s.name] = self.expr(body[0].value, env, mod, tname=a.args[0].arg)
-                env.scal.pop(s.name, None)
+                if s.name in (args3[0], args3[1], args3[2]) or s.name in env.grids or s.name == env.phi or s.name in env.fs:
+                    raise Refuse('nested def re-uses the name %s' % s.name)
+                env.def_func(s.name, self.expr(body[0].value, env, mod, tname=a.args[0].arg), free_names(body[0].value, [a.args[0].arg]))
                 continue
             if isinstance(s, ast.Assign) and len(s.targets) == 1:
                 tg, v = s.targets[0], s.value
@@ -579,7 +730,18 @@ class Translator:
                             raise Refuse('model is called with %d values but unpacks %d' % (len(pvals), len(names)))
                         vals = pvals
                     for nme, val in zip(names, vals):
-                        env.scal[nme] = val
+                        env.rebinding(nme); env.scal[nme] = val; env.funcs.pop(nme, None)
+                    continue
+                # value(s) returned by a module-level helper function (inlined)
+                if isinstance(v, ast.Call) and isinstance(v.func, ast.Name) and self.is_helper(mod, v.func.id, env) \
+                        and (isinstance(tg, ast.Name) or (isinstance(tg, ast.Tuple) and all(isinstance(e, ast.Name) for e in tg.elts))):
+                    names = [tg.id] if isinstance(tg, ast.Name) else [e.id for e in tg.elts]
+                    if len(set(names)) != len(names):
+                        raise Refuse('a name is bound twice in the unpacking of %s' % v.func.id)
+                    vals = self.helper_call(v, env, mod)
+                    if len(vals) != len(names):
+                        raise Refuse('%d name(s) receive the %d value(s) of %s' % (len(names), len(vals), v.func.id))
+                    self.bind_values(names, vals, env, args3)
                     continue
                 if isinstance(tg, ast.Name) and isinstance(v, ast.Subscript) and isinstance(v.value, ast.Name) and v.value.id == args3[0]:
                     ix = v.slice
@@ -589,11 +751,11 @@ class Translator:
                         st['unpacked'] = (st['unpacked'] or []) + [ix.value]
                         st['unpack_names'] = (st.get('unpack_names') or []) + [tg.id]
                         st['index_style'] = True
-                        env.scal[tg.id] = V(ix.value)
+                        env.rebinding(tg.id); env.scal[tg.id] = V(ix.value)
                     else:
                         if ix.value >= len(pvals):
                             raise Refuse('parameter index out of range of the values passed')
-                        env.scal[tg.id] = pvals[ix.value]
+                        env.rebinding(tg.id); env.scal[tg.id] = pvals[ix.value]
                     continue
                 if not isinstance(tg, ast.Name):
                     raise Refuse('assignment target %s' % type(tg).__name__)
@@ -611,7 +773,9 @@ class Translator:
                         items.append((kk.value, self.expr(vv, env, mod)))
                     env.dicts[name] = items; continue
                 if isinstance(v, ast.Lambda):
-                    env.funcs[name] = self.lam(v, env, mod); env.scal.pop(name, None); continue
+                    if name in env.grids or name == env.phi or name in env.fs:
+                        raise Refuse('time function assigned to the name %s already in use' % name)
+                    env.def_func(name, self.lam(v, env, mod), free_names(v.body, [x.arg for x in v.args.args])); continue
                 base, fn = self.modcall(v, mod)
                 if base == 'Numerics':
                     if fn != 'default_grid' or len(v.args) != 1 or v.keywords or not (isinstance(v.args[0], ast.Name) and v.args[0].id == args3[2]) \
@@ -651,7 +815,8 @@ class Translator:
                 # scalar temporary
                 if name in env.grids or name == env.phi or name in env.fs:
                     raise Refuse('scalar assigned to the name %s already in use' % name)
-                env.scal[name] = self.expr(v, env, mod)
+                val = self.expr(v, env, mod)
+                env.rebinding(name); env.scal[name] = val
                 env.funcs.pop(name, None)
                 continue
             raise Refuse('statement %s at line %d' % (type(s).__name__, getattr(s, 'lineno', 0)))
@@ -678,12 +843,14 @@ class Translator:
         mod = self.mods[rel]
         fn = mod.funcs[name]
         st = {'unpacked': None, 'depth0': 0}
+        self._helpers_used = set()
         prog = self.function(mod, fn, None, st, 0)
         kind = 'mscore' if len(fn.args.args) == 1 else 'sfs'
         last = prog
         return {'name': name, 'file': rel, 'kind': kind, 'param_names': mod.param_names[name],
                 'unpacked': st['unpacked'] or [], 'unpack_names': st.get('unpack_names') or [],
-                'index_style': bool(st.get('index_style')), 'prog': prog, 'lineno': fn.lineno, 'calls': st.get('calls')}
+                'index_style': bool(st.get('index_style')), 'prog': prog, 'lineno': fn.lineno, 'calls': st.get('calls'),
+                'helpers': sorted(self._helpers_used)}
 
     def all_models(self):
         """[(file, name)] of every function carrying __param_names__, in source order"""
